@@ -30,3 +30,10 @@ Definition ec_numvar (E : list (Z * Z)) : Z := len E.
 Definition proper_coloring (n : Z) (E : list (Z * Z)) (k : Z) (phi : Z -> Z) : Prop :=
   (forall v, 1 <= v <= n -> 1 <= phi v <= k) /\
   (forall e, In e E -> phi (fst e) <> phi (snd e)).
+
+(* NOT proved (tested by enumeration in harness/c02.py): when every union of components contains an
+   even number of edges the even-colouring formula is satisfiable *)
+Definition ec_sat_of_even_components_statement : Prop :=
+  forall n E l, graph_wf n E = true -> ec_ir n E = Some l ->
+    (forall S, closed_under_edges S E -> Z.even (len (filter (fun e => S (fst e)) E)) = true) ->
+    exists a, irs_hold a l = true.
